@@ -18,10 +18,59 @@ def gen_cases(rng, tier):
             h += ['p0,%d' % k, 'r0,%d' % k]
         h.append('t120')
         cases.append({'id': 'c04-burst-%d' % i, 'cfg': cfg, 'hist': h, 'sub': 'lsim', 'tags': {'mode': 'burst'}})
+    # keys outside defsrc under every combination of process-unmapped-keys / block-unmapped-keys / delegate-to-first-layer /
+    # transparent-key-resolution, in every layer state the history reaches (the parser's fill of the never-assigned cells)
+    OUT = 183   # f13: not in any defsrc, not an output of any generated action
+    for i in range(160 if tier == 'quick' else 4000):
+        blk = rng.choice(['yes', 'no'])
+        opts = {'process-unmapped-keys': 'yes', 'block-unmapped-keys': blk,
+                'delegate-to-first-layer': rng.choice(['yes', 'no']),
+                'transparent-key-resolution': rng.choice(['to-base-layer', 'layer-stack'])}
+        g = gen.CfgGen(rng, 'c04', nlayers=rng.choice([2, 3, 4]), opts=opts)
+        cfg = g.gen()
+        # make sure layers can be switched as well as held
+        ln = rng.choice(g.layer_names[1:])
+        cfg = cfg.replace('(deflayer l0 ', '(deflayer l0 (layer-switch %s) ' % ln, 1).replace('(defsrc ', '(defsrc f14 ', 1)
+        for other in g.layer_names[1:]:
+            cfg = cfg.replace('(deflayer %s ' % other, '(deflayer %s %s ' % (other, rng.choice(['_', '(layer-switch l0)', 'XX'])), 1)
+        keys = gen.codes_of(g.src) + [184]
+        h = []
+        down = []
+        for _ in range(rng.randint(4, 14)):
+            r = rng.random()
+            if r < 0.35:
+                h += ['d%d' % OUT, 't%d' % rng.choice([1, 3, 8]), 'u%d' % OUT]
+            elif down and r < 0.6:
+                h.append('u%d' % down.pop(rng.randrange(len(down))))
+            else:
+                k = rng.choice(keys)
+                if k not in down:
+                    down.append(k); h.append('d%d' % k)
+            h.append('t%d' % rng.choice([1, 2, 7]))
+        h += ['u%d' % k for k in down] + ['t50', 'q']
+        cases.append({'id': 'c04-unmapped-%d' % i, 'cfg': cfg, 'hist': h, 'sub': 'ksim', 'blocked': blk == 'yes', 'out': OUT,
+                      'tags': {'mode': 'unmapped-key', 'block': blk}})
     return cases
 
 
+def oracle(c, it):
+    """a key outside defsrc: blocked => never reaches the OS; not blocked => passes through unchanged, whatever the layers are"""
+    if 'out' not in c or not it or it[0].startswith('PARSE-'):
+        return None
+    o = c['out']
+    evs = [e for l in it if l.startswith('@') for e in l.split(' ')[1:] if e in ('d%d' % o, 'u%d' % o)]
+    n_press = sum(1 for t in c['hist'] if t == 'd%d' % o)
+    if c['blocked']:
+        if evs:
+            return 'block-unmapped-keys yes, but the unmapped key reached the OS: %s' % ' '.join(evs[:6])
+    else:
+        if evs != ['d%d' % o, 'u%d' % o] * n_press:
+            return 'the unmapped key was pressed/released %d times but the OS saw: %s' % (n_press, ' '.join(evs[:10]))
+    return None
+
+
 SPEC = {
+    'oracle': oracle,
     'id': 'C04',
     'sub': 'lsim',
     'gen_cases': gen_cases,
